@@ -1340,6 +1340,36 @@ def check_C20(tier, seed):
     out.coverage["states"] = r.distinct
     out.coverage["transitions"] = r.states
     log("VAux spheres: %d point sets (%.1fs)" % (r.distinct, r.wall))
+    # design level: the ring search of Space::knn as a state machine (VKnn): cells of a ring in any order, every particle set of
+    # a small non-cubic grid, every query particle; the skip and the termination bounds are lower bounds, the result is k nearest
+    knn_models = [("k1", dict(CDx=2, CDy=3, CDz=1, CWx=3, CWy=2, CWz=4, NP=3, K=1, Step=1, Flat=True)),
+                  ("k2", dict(CDx=2, CDy=3, CDz=1, CWx=3, CWy=2, CWz=4, NP=3, K=2, Step=1, Flat=True))]
+    if tier == "thorough":
+        knn_models += [("k2n4", dict(CDx=2, CDy=3, CDz=1, CWx=3, CWy=2, CWz=4, NP=4, K=2, Step=1, Flat=True)),
+                       ("3d", dict(CDx=2, CDy=2, CDz=2, CWx=2, CWy=3, CWz=2, NP=3, K=1, Step=1, Flat=False)),
+                       ("k0", dict(CDx=3, CDy=3, CDz=1, CWx=4, CWy=2, CWz=4, NP=2, K=0, Step=2, Flat=True))]
+    for name, c in knn_models:
+        cfgk = os.path.join(OUT, "tlc", "vknn_%s.cfg" % name)
+        consts = dict(c)
+        consts.update(CD=("<-", "MCCD"), CW=("<-", "MCCW"), Sets=("<-", "MCSets"), StopMode="code")
+        write_cfg(cfgk, constants=consts, invariants=["TypeOK", "Sound", "CellBound", "RingBound", "Result", "Progress"])
+        rk = run_tlc("mc/MCVKnn.tla", cfgk, timeout=3000)
+        if rk.violation:
+            raise ToolError("VKnn: the ring search of the model violates its own invariant (%s): %s\n%s" % (name, rk.violation, rk.raw_tail[-2000:]))
+        out.coverage["states"] += rk.distinct
+        out.coverage["transitions"] += rk.states
+        out.coverage.setdefault("models", {})["VKnn/" + name] = dict(states=rk.distinct, wall=round(rk.wall, 1), **{k: v for k, v in c.items()})
+        log("VKnn %s: %d states (%.1fs)" % (name, rk.distinct, rk.wall))
+    if tier == "thorough":
+        # non-vacuity: a termination bound that is one cell width too optimistic must be rejected by the model
+        cfgk = os.path.join(OUT, "tlc", "vknn_eager.cfg")
+        consts = dict(CDx=2, CDy=3, CDz=1, CWx=3, CWy=2, CWz=4, NP=3, K=1, Step=1, Flat=True, CD=("<-", "MCCD"), CW=("<-", "MCCW"),
+                      Sets=("<-", "MCSets"), StopMode="eager")
+        write_cfg(cfgk, constants=consts, invariants=["Result"])
+        rk = run_tlc("mc/MCVKnn.tla", cfgk, timeout=3000)
+        if not rk.violation:
+            raise ToolError("VKnn accepts an over-optimistic termination bound: the model is vacuous")
+        out.coverage["models"]["VKnn/eager (must fail)"] = dict(violated=True)
     kc = knn_cases(seed, tier)
     kf = os.path.join(OUT, "C20_knn_cases.ndjson")
     with open(kf, "w") as f:
